@@ -9,7 +9,13 @@ PROPS = 'Srctools.Props.C04'
 RULE = ("angle triples: ALL multiples of 15 degrees (24^3), pitch = 90/270 +- {1e-12..1e-3} and +- deltas around the 0.001 "
         "threshold of _to_angle (0.0573 deg), random real triples; for each: from_angle/from_pitch/yaw/roll, transpose, "
         "to_angle (branch + (cos,sin) of each result angle), inverse, compared entry by entry with the Lean model evaluated "
-        "exactly over Rat on the same six sin/cos doubles (sent as exact rationals). products: random pairs of rotations and "
+        "exactly over Rat on the same six sin/cos doubles (sent as exact rationals). composed: chains of 2-3 angles from the "
+        "15-degree grid whose PRODUCT has its forward axis on the gimbal-lock pole up to rounding residue (all 880 "
+        "(pitchA,yawA,pitchB,rollB) solutions x free rollA/yawB, sampled), optionally with a roll-only factor in front, a "
+        "yaw-only factor behind, or a tiny (1e-12..0.06 deg) rotation that pushes it just off the pole: _to_angle of the "
+        "product vs the model, and on the implementation round trip (rounding*(1+1/h) off the gimbal branch, 2h on it), "
+        "Angle@Angle vs the matrix product, v @ (A @ B) vs (v @ A) @ B through Angle operands, @= forms. "
+        "products: random pairs of rotations and "
         "vectors of magnitude 1e-3..1e6 (matMul, vecRot). dispatch: EVERY (left type, right type, form) of the 7x7x3 table "
         "{Vec,FrozenVec,tuple,Angle,FrozenAngle,Matrix,FrozenMatrix}^2 x {@, @=, direct __rmatmul__} on several value sets "
         "each, plus same-object operands (m @= m, a @= a, fm @ fm): result type, value, result-is-left-operand, left/right "
@@ -205,12 +211,81 @@ def gen_dispatch_cases(ctx, rng):
                     ls = rand_vec(rng) if l <= TUP else rand_angle(rng)
                     rs = rand_vec(rng) if r <= TUP else rand_angle(rng)
                     yield (l, r, f, ls, rs, False)
+    # operand pairs whose product lands on the gimbal-lock pole (angle results go through _to_angle)
+    for l in (ANG, FANG):
+        for r in (ANG, FANG, MAT, FMAT):
+            for f in range(3):
+                for c in COMPOSED_CORPUS[:1] + [rand_pole_pair(rng) for _ in range(n)]:
+                    yield (l, r, f, tuple(c[0]), tuple(c[1]), False)
     # the same object on both sides
     for l in (ANG, FANG, MAT, FMAT):
         for f in range(3):
             for i in range(n):
                 s = rand_angle(rng)
                 yield (l, l, f, s, s, True)
+
+
+_POLE_MATCHES = None
+
+
+def pole_matches():
+    """All (pitchA, yawA, pitchB, rollB) on the 15-degree grid such that the forward axis of
+    from_angle(pitchA, yawA, *) @ from_angle(pitchB, *, rollB) is +-Z up to rounding: forward(A) must be
+    + or - the third column of B, which does not depend on B's yaw (nor forward(A) on A's roll).
+    Computed with plain math, independent of the implementation."""
+    global _POLE_MATCHES
+    if _POLE_MATCHES is None:
+        grid = [float(x) for x in range(0, 360, 15)]
+        key = lambda v: tuple(round(c, 9) + 0.0 for c in v)
+        fw = {}
+        for p in grid:
+            for y in grid:
+                cp, sp, cy, sy, _, _ = trig(p, y, 0.0)
+                fw.setdefault(key((cp * cy, cp * sy, -sp)), []).append((p, y))
+        out = []
+        for p in grid:
+            for r in grid:
+                cp, sp, _, _, cr, sr = trig(p, 0.0, r)
+                col = (-sp, sr * cp, cr * cp)
+                for sg in (1, -1):
+                    for (pa, ya) in fw.get(key(tuple(sg * c for c in col)), []):
+                        out.append((pa, ya, p, r))
+        _POLE_MATCHES = out
+    return _POLE_MATCHES
+
+
+# compositions quoted in the task statement of the extension (kept as a tiny corpus)
+COMPOSED_CORPUS = [[(45.0, 0.0, 0.0), (45.0, 225.0, 0.0)], [(15.0, 0.0, 15.0), (255.0, 0.0, 0.0)]]
+TINY = [10.0 ** -k for k in range(12, 2, -1)] + [0.01, 0.05, 0.0572958, 0.0573, 0.06]
+
+
+def rand_pole_pair(rng):
+    grid = range(0, 360, 15)
+    pa, ya, pb, rb = rng.choice(pole_matches())
+    return [(pa, ya, float(rng.choice(grid))), (pb, float(rng.choice(grid)), rb)]
+
+
+def gen_composed_cases(ctx, rng):
+    """Chains of 2-3 angles whose PRODUCT has its forward axis on (or, by a further tiny factor,
+    near) the gimbal-lock pole: the matrix carries rounding residue that no single from_angle call
+    produces."""
+    grid = range(0, 360, 15)
+    for c in COMPOSED_CORPUS:
+        yield ('pole-pair', c, (100.0, -50.0, 25.0))
+    for _ in range(ctx.budget(1500, 20000)):
+        pair = rand_pole_pair(rng)
+        k = rng.random()
+        if k < 0.45:
+            yield ('pole-pair', pair, rand_vec(rng))
+        elif k < 0.55:      # a roll-only factor in front keeps the forward axis of the first factor
+            yield ('pole-triple', [(0.0, 0.0, float(rng.choice(grid)))] + pair, rand_vec(rng))
+        elif k < 0.65:      # a yaw-only factor behind keeps +-Z where it is
+            yield ('pole-triple', pair + [(0.0, float(rng.choice(grid)), 0.0)], rand_vec(rng))
+        else:               # pushed off the pole by a tiny rotation: near-pole by composition
+            d = rng.choice(TINY) * rng.choice([1, -1])
+            e = rng.choice([(d, 0.0, 0.0), (0.0, 0.0, d), (d, rng.uniform(0, 360), 0.0), (d, 0.0, rng.choice(TINY)),
+                            (d * rng.random(), rng.uniform(0, 360), rng.uniform(0, 360))])
+            yield ('near-pole-composed', (pair + [e]) if rng.random() < 0.7 else ([e] + pair), rand_vec(rng))
 
 
 def gen_inverse_cases(ctx, rng):
@@ -311,6 +386,62 @@ def prop_mul_case(ctx, im, case):
             ctx.witness('vec-angle', f'Vec @ Angle != Vec @ Matrix.from_angle(Angle) for v={v}, angle={a}', inp)
     except Exception as ex:
         ctx.witness('exception', f'{type(ex).__name__}: {ex} for {inp}', inp)
+
+
+def loss_bound(h):
+    """What `matrix -> to_angle -> from_angle` may lose, by the property statement: rounding only off the
+    gimbal branch (scaled by 1/h because the angles are atan2 of numbers of size h), 2*h on it."""
+    return tol_ang(h) if h > 0.001 else 2 * Fr(h) + tol_ang(1)
+
+
+def prop_composed_case(ctx, im, case):
+    """Round trip and the Angle-operand identities on a PRODUCT of rotations that lands on / near the pole."""
+    sm = im.sm
+    kind, chain, v = case
+    inp = {'kind': 'composed', 'chain': [list(t) for t in chain], 'v': list(v)}
+    desc = ' @ '.join(f'from_angle{tuple(t)}' for t in chain)
+    try:
+        M = sm.Matrix.from_angle(*chain[0])
+        ang = sm.Angle(*chain[0])
+        ang_ip = sm.Angle(*chain[0])
+        step = sm.Vec(*v) @ sm.Angle(*chain[0])
+        budget = Fr(0)
+        for t in chain[1:]:
+            M = M @ sm.Matrix.from_angle(*t)
+            ang = ang @ sm.FrozenAngle(*t)
+            ang_ip @= sm.Angle(*t)
+            step = step @ sm.Angle(*t)
+            e = mat_entries(M)
+            budget += loss_bound(math.sqrt(e[0] ** 2 + e[1] ** 2))
+        e = mat_entries(M)
+        h = math.sqrt(e[0] ** 2 + e[1] ** 2)
+        if maxdiff(f_matmul(e, mat_entries(M.transpose())), IDENT) > len(chain) * 4 * tol_poly(1):
+            ctx.witness('orthonormal', f'{desc} is not orthonormal', inp)
+        A = M.to_angle()
+        d = maxdiff(e, mat_entries(sm.Matrix.from_angle(A)))
+        if d > loss_bound(h) + len(chain) * 4 * tol_poly(1):
+            ctx.witness('gimbal' if h <= 0.001 else 'roundtrip',
+                        f'M = {desc}: from_angle(M.to_angle()) differs from M by {float(d):.3e}; to_angle() = {A}, horizontal '
+                        f'length of the forward axis {h!r}, allowed {float(loss_bound(h)):.3e}', inp)
+        # the Angle computed by Angle @ Angle (through _to_angle) represents the product
+        for name, a in (('Angle @ FrozenAngle', ang), ('Angle @= Angle', ang_ip)):
+            d = maxdiff(e, mat_entries(sm.Matrix.from_angle(a)))
+            if d > budget + len(chain) * 4 * tol_poly(1):
+                ctx.witness('angle-product', f'{name} along {desc} gives {a}, whose matrix differs from the matrix product by {float(d):.3e} '
+                                             f'(allowed {float(budget):.3e})', inp)
+        # rotating by the composed Angle = rotating step by step
+        n1 = sum(abs(Fr(t)) for t in v)
+        once = sm.Vec(*v) @ ang
+        ip = sm.Vec(*v)
+        ip @= ang_ip
+        tolv = (budget + len(chain) * 8 * tol_poly(1)) * n1 + 4 * tol_poly(n1)
+        if maxdiff(im.raw(once), im.raw(step)) > tolv:
+            ctx.witness('assoc-angle', f'(v @ A) @ B ... step by step = {im.raw(step)} but v @ (A @ B ...) = {im.raw(once)} for v={tuple(v)} along {desc} '
+                                       f'[composed angle {ang}]', inp)
+        if maxdiff(im.raw(ip), im.raw(step)) > tolv:
+            ctx.witness('assoc-angle', f'a @= b ...; v @= a gives {im.raw(ip)} but rotating step by step gives {im.raw(step)} for v={tuple(v)} along {desc}', inp)
+    except Exception as ex:
+        ctx.witness('exception', f'{type(ex).__name__}: {ex} for {desc}', inp)
 
 
 def run_form(im, l_obj, r_obj, form):
@@ -547,6 +678,34 @@ def correspond(ctx, drivers):
             ctx.count('product'); ctx.traces_vs_impl += 1
         add(rs, chk)
 
+    # --- _to_angle on products that land on / near the pole
+    rng = case_rng(ctx, 'composed')
+    for case in gen_composed_cases(ctx, rng):
+        kind, chain, v = case
+        M = sm.Matrix.from_angle(*chain[0])
+        for t in chain[1:]:
+            M = M @ sm.Matrix.from_angle(*t)
+        e = mat_entries(M)
+        rad = radii_of(e)
+        A = M.to_angle()
+        got_ang = trig(A.pitch, A.yaw, A.roll)
+
+        def chk(rep, case=case, rad=rad, got_ang=got_ang):
+            c = {'chain': [list(t) for t in case[1]]}
+            ma = [fr(x) for x in rep[0]['a']]
+            general = rep[0]['general']
+            if general != (rad[0] > 0.001):
+                ctx.disagree(c, rad[0] > 0.001, general, '_to_angle branch (composed)')
+            rr = [rad[1], rad[1], rad[0] if general else rad[3], rad[0] if general else rad[3], rad[2] if general else 1.0, rad[2] if general else 1.0]
+            for i in range(6):
+                if abs(ma[i] - Fr(got_ang[i])) > tol_ang(rr[i]):
+                    ctx.disagree(c, got_ang, [float(x) for x in ma], f'_to_angle (composed) component {"cp sp cy sy cr sr".split()[i]}')
+                    break
+            ctx.case(c, nontrivial=True, sample_every=701)
+            ctx.count('composed:' + case[0]); ctx.count('to_angle:' + ('general' if general else 'gimbal'))
+            ctx.traces_vs_impl += 1
+        add([{'op': 'toAngle', 'm': [dy(x) for x in e], 'rad': [dy(x) for x in rad]}], chk)
+
     # --- the operand table, entry by entry
     rng = case_rng(ctx, 'dispatch')
     for case in gen_dispatch_cases(ctx, rng):
@@ -658,6 +817,9 @@ def search(ctx):
         prop_angle_case(ctx, im, case)
     for case in gen_mul_cases(ctx, case_rng(ctx, 'mul')):
         prop_mul_case(ctx, im, case)
+    for case in gen_composed_cases(ctx, case_rng(ctx, 'composed')):
+        prop_composed_case(ctx, im, case)
+        ctx.count('search:composed:' + case[0])
     for case in gen_dispatch_cases(ctx, case_rng(ctx, 'dispatch')):
         prop_dispatch_case(ctx, im, case)
     for e in gen_inverse_cases(ctx, case_rng(ctx, 'inverse')):
@@ -692,6 +854,8 @@ def search(ctx):
             prop_mul_case(ctx, im, (tuple(a), tuple(b), tuple(c3), tuple(v)))
             for t in (a, b):
                 prop_angle_case(ctx, im, ('neighbour',) + tuple(t))
+        elif 'chain' in c:
+            prop_composed_case(ctx, im, ('neighbour', [tuple(t) for t in c['chain']], (100.0, -50.0, 25.0)))
         elif 'm' in c:
             prop_inverse_case(ctx, im, tuple(c['m']))
     # prefer small witnesses: simple angles first
@@ -710,6 +874,8 @@ def _replay_input(ctx, im, inp):
         prop_dispatch_case(ctx, im, (inp['l'], inp['r'], inp['form'], tuple(inp['ls']), tuple(inp['rs']), inp['alias']))
     elif k == 'inverse':
         prop_inverse_case(ctx, im, tuple(inp['m']))
+    elif k == 'composed':
+        prop_composed_case(ctx, im, ('replay', [tuple(t) for t in inp['chain']], tuple(inp['v'])))
     else:
         return False
     return True
